@@ -1,0 +1,21 @@
+//go:build verif
+
+package net
+
+import (
+	"context"
+
+	"github.com/ipfs/boxo/blockservice"
+
+	coreblock "github.com/sourcenetwork/defradb/internal/core/block"
+)
+
+// VerifSyncDAG exposes syncDAG to the verification harness (build tag verif).
+// The block is given in its encoded form, as it arrives in a push-log request.
+func VerifSyncDAG(ctx context.Context, blockService blockservice.BlockService, raw []byte) error {
+	block, err := coreblock.GetFromBytes(raw)
+	if err != nil {
+		return err
+	}
+	return syncDAG(ctx, blockService, block)
+}
